@@ -79,7 +79,9 @@ def baseline_of(spec):
     srcs = [SrcPlan(p.name, p.items, "sync_iter" if ((alias and n == alias[0]) or p.iter_fault is not None) else "list",
                     iter_fault=p.iter_fault)
             for n, p in enumerate(spec.srcs)]
-    fns = [FnPlan(p.name, p.kind, p.param, "def") if p is not None else None for p in spec.fns]
+    # a class used as the callable is a synchronous callable giving instances: it has no "async twin", both runs use it
+    fns = [FnPlan(p.name, p.kind, p.param, "cls_async_call" if p.flavour == "cls_async_call" else "def")
+           if p is not None else None for p in spec.fns]
     base = Spec(spec.tool, srcs, fns, spec.p)
     return base
 
